@@ -443,6 +443,19 @@ class Report:
         EVID.mkdir(exist_ok=True)
         (EVID / f"{self.pid}.json").write_text(json.dumps(ev, indent=1, default=str) + "\n")
         seen = set()
+        found_any = [p for p, found in self.violations if found]
+        if found_any:
+            # a broken obligation / correspondence for which a concrete failing input WAS found is reported through that
+            # input: the theorem or correspondence that no longer checks is named inside the counterexample's replay
+            unchecked = [p for p, found in self.violations if not found]
+            if unchecked:
+                try:
+                    first = json.loads(Path(found_any[0]).read_text())
+                    first["obligations_no_longer_checked"] = [json.loads(Path(u).read_text()) for u in unchecked]
+                    Path(found_any[0]).write_text(json.dumps(first, indent=1, default=str) + "\n")
+                except (OSError, ValueError):
+                    pass
+                self.violations = [(p, f) for p, f in self.violations if f]
         for p, found in self.violations:
             if p in seen:
                 continue
